@@ -87,6 +87,44 @@ PROPS["C08"] = {
                          "exactness for 3/2 < x <= 2.65: judged against the 900-bit reference only"],
 }
 
+PROPS["C09"] = {
+    "lean_modules": ["MithrilModel.Properties.C09"],
+    "theorems": [
+        "C09.C09_stm_sound", "C09.verifyBatch_ok_run", "C09.run_head_zero", "C09.C09_stm_rejects_length_mismatch",
+        "C09.C09_stm_rejects_unsorted", "C09.C09_stm_empty_panic_note", "C09.C09_stm_root_injective",
+        "C09.C09_mkproof_sound", "C09.C09_mkproof_dup_counterexample_prefix", "C09.C09_mkproof_node_as_leaf_counterexample",
+        "C09.C09_map_sound", "StmBatch.batch_sound", "Mmr.mkproof_value_sound", "Mmr.calcRoot_cover",
+        "ExprTree.nested_sound", "ExprTree.claim_is_subtree_value", "MkProof.verify_contains_sound",
+    ],
+    "level_text": "Soundness of all three verifiers is proved in Lean for every proof object and every tree size: the STM batch-path "
+                  "verifier (wrapper + level loop, conclusion 'claimed leaves are the committed ones at the stated positions' or a "
+                  "hash collision or a path value that is not 32 bytes), the ckb-MMR verifier behind MKProof (value level, any injective "
+                  "merge, any claimed MMR size; for the code after the duplicate-position fix) and nested MKMapProofs (any depth). The "
+                  "transliterations run with Lean implementations of Blake2b/Blake2s and are compared with the real code on exhaustive "
+                  "small trees/subsets and on single mutations of every proof component; accepted proofs are checked against the "
+                  "committed set directly. Completeness (generated proofs verify) is checked exhaustively on small scope, not proved.",
+    "level_note": "Trusted: Lean kernel; the hash functions are parameters of the theorems (injectivity / collision disjunct) and are "
+                  "only executed in the driver (validated against the blake2/sha2 crates every run); byte-level instantiation of the "
+                  "MMR theorem needs equal-length splits (known findings node-as-leaf and concat-split are exactly its failure); the "
+                  "link between the executable MapProof.verify and the inductive Verified predicate is by K only.",
+    "harness": [("harness", "c09"), ("harness", "c09b")],
+    "anchors": ["mithril-stm/src/membership_commitment/merkle_tree/tree.rs", "mithril-stm/src/membership_commitment/merkle_tree/commitment.rs",
+                "mithril-stm/src/membership_commitment/merkle_tree/path.rs", "internal/mithril-merkle-tree/src/merkle_tree.rs",
+                "internal/mithril-merkle-tree/src/merkle_map.rs", "mithril-common/src/entities/mk_set_proof.rs"],
+    "rule": "STM tree: all sizes 1..11 (17 thorough), all non-empty index subsets up to size 9 (13), generated path vs model, honest "
+            "verification, and 25 kinds of single mutation (leaf replaced/moved/duplicated, out-of-range and 64-bit indices, unsorted, "
+            "path value flipped/dropped/added/odd length, root and nr_leaves altered); MKProof: sizes 1..10 (17), subsets up to 7 (12), "
+            "leaves of four shapes, mutations incl. duplicate positions, size altered, items altered; nested MKMapProof<BlockRange> of "
+            "1-4 trees with sub-proof detached/swapped/re-keyed/tampered; hash vectors are trivial cases; distinct request lines",
+    "trivial_tags": ["hash"],
+    "trusted_base": ["rustc/cargo; harness bins c09, c09b; cfg-guarded wrappers mithril_stm::verif_hooks (hook H1)",
+                     "ckb-merkle-mountain-range 0.6.1 is transliterated (Mmr.lean) and compared by K, not verified itself"],
+    "assumptions": ["collision resistance / injectivity of Blake2b-256 and Blake2s-256 enter as hypotheses or disjuncts of the theorems"],
+    "goals_not_proved": ["C09_stm_complete, C09_mkproof_complete (generated proofs verify): exhaustive small-scope test only",
+                         "executable MapProof.verify => Verified (link lemma): K only",
+                         "byte-level instantiation of C09_mkproof_sound for variable-length leaves is FALSE (known findings C09-node-as-leaf, C09-concat-split)"],
+}
+
 
 # property configurations contributed as separate files: props.d/Cxx.py defines `CONFIG = {...}`
 import glob as _glob, os as _os, importlib.util as _ilu
